@@ -622,6 +622,13 @@ std::string stepOp(const std::vector<std::string>& t)
     bool ok = ioCloseOf(a, t[0] == "peerclose", static_cast<int>(rs));
     return std::string(ok ? "fired " : "ignored ") + takeEvs() + " | " + stateLine();
   }
+  if (t[0] == "timer" && t.size() == 2 && vh::parseNat(t[1], a))
+  {
+    // the engine's connect-timeout Close (tagged ConnectTimeout) is processed: executed, with reason Timeout, only while the
+    // connect is still pending - a stale timer is ignored (tcp_engine.hpp process(), `if (!s->connectPending) break;`)
+    bool ok = ioCloseOf(a, false, 3);
+    return std::string(ok ? "fired " : "ignored ") + takeEvs() + " | " + stateLine();
+  }
   if (t[0] == "fence" && t.size() == 1)
   {
     g->t->_impl->setTeardownFence();
